@@ -1564,6 +1564,8 @@ fn ext_threads_case(case: u64, rng: &mut Rng, st: &mut Stats, calls: usize) {
 }
 
 fn main() {
+    // tasks are polled by hand in this binary: see vcore::run::use_plain_block_on
+    vcore::run::use_plain_block_on();
     let mut run = Run::from_args(
         "C05",
         "exploration",
